@@ -262,3 +262,77 @@ def _is_err(r):
 def _okp(r):
     from specs.codec import _ok_payload
     return _ok_payload(r)
+
+
+# =========================================================================== the ioParams section
+
+def spec_io_params(ck):
+    """ioParams.bufferSize reaches the relay as it was read (serde: any usize): `copy_half` allocates its buffer with it on the
+    first connection.  Whatever the loader accepts must not make that allocation panic (a size above isize::MAX is a "capacity
+    overflow" panic; panic = abort), and must be a buffer the relay can work with (a relay buffer of 0 bytes reads 0 bytes = end
+    of stream: every tunnel would end at once).  "What the loader accepts": every buffer size for which the validation method
+    of IoParams (a method named verify / validate / check / init, if there is one) returns Ok; without such a method, every size."""
+    fn = ck.find(lambda: ck.db.free('copy_half'), 'copy_half')
+    pf = ck.si.structs.get('IoParams', [])
+    if fn is None or 'buffer_size' not in pf:
+        return
+    from specs.relay import spec_copy_half_stream   # noqa
+    ex = ck.engine(loop_bound=3, call_depth=8)
+    ex.benign_havoc = harness.IRRELEVANT
+    ex.havoc_result_ok = True
+    st = State()
+    bufsz = z3.BitVec('buffer_size', 64)
+    params = Agg('IoParams', dict((i, Int(bufsz, 64, False) if n == 'buffer_size' else Bool(z3.Bool('cfg_' + n))) for i, n in enumerate(pf)))
+    pcell = st.alloc(params)
+    ex.inputs = {'buffer_size': bufsz}
+    validators = [f for f in ck.db.fns if f.params and re.search(r'&(?:mut )?(?:config::)?IoParams$', f.params[0][1].strip()) and len(f.params) == 1
+                  and re.search(r'::(verify|validate|check|init)$', f.name)]
+    states = [st]
+    if validators:
+        # the validation only counts if loading a configuration runs it: some function on the start-up path (Config::load, main) calls it
+        vname = validators[0].name.split('::')[-1]
+        callers = [f for f in ck.db.fns if f is not validators[0] and re.search(r'(?:^|::)load(?:::|$)|(?:^|::)main(?:::|$)', f.name) and ('config' in f.name.lower() or 'main' in f.name)
+                   and any(re.search(r'IoParams::%s\(' % vname, ln) for ln in f.raw_lines)]
+        if not callers:
+            validators = []
+    if validators:
+        ck.target(validators[0])
+        states = []
+        for s in ex.call_fn(st, validators[0], [Ref(pcell, ())]):
+            if s.status == 'returned' and not _is_err(s.ret):
+                okc, _ = _okp(s.ret)
+                try:
+                    ex.assume(s, okc)
+                except Exception:
+                    continue
+                s.frames, s.status = [], 'running'
+                states.append(s)
+    label = 'C18/io-params/an-accepted-buffer-size-is-one-the-relay-can-allocate-and-use'
+
+    def zeroed(ctx):
+        n = ctx.args[0].t
+        ctx.ex.prove(ctx.st, label, z3.And(z3.ULE(n, BV((1 << 63) - 1, 64)), n != BV(0, 64)))
+        ctx.st.trace.append(('relay-buffer-allocated',))
+        from engine import DIVERGE
+        return DIVERGE
+    ex.overrides.append((re.compile(r'BytesMut::zeroed$|BytesMut::with_capacity$|Vec::<u8>::with_capacity$|from_elem::<u8>$'), zeroed))
+    sf = ck.si.structs.get('SrcHalf', ['name', 'stream', 'frames', 'rawfd'])
+    reached = 0
+    allf = []
+    for s in states:
+        src = Agg('SrcHalf', dict((i, Bytes.from_py(b'client', 'str') if n == 'name' else C.mk_option(ex, None)) for i, n in enumerate(sf)))
+        dst = Agg('DstHalf', dict((i, Bytes.from_py(b'server', 'str') if n == 'name' else C.mk_option(ex, None)) for i, n in enumerate(sf)))
+        outs = run_async(ex, s, fn, [Ref(pcell, ()), src, dst, Ref(s.alloc(Opaque('ContextStatistics', 'stat')), ()), Opaque('GenericCounter', 'metric')])
+        for o, _ in outs:
+            allf.append(o)
+            if ('relay-buffer-allocated',) in o.trace:
+                reached += 1
+    if not reached:
+        ck.add('C18/io-params/reachability', 'vacuous' if states else 'discharged', 'copy_half never allocated its buffer in the model' if states else 'the validation accepts no buffer size at all')
+    for f in ex.findings:
+        if not hasattr(f, 'target'):
+            f.target = 'IoParams -> copy_half'
+    ck.plans.append(lambda ob: ('relay', [{'driver': 'buffer_size', 'args': {'buffer_size': b}} for b in ('18446744073709551615', '9223372036854775808', '0')],
+                                lambda o: o.get('accepted') is True and (o.get('panicked') is True or o.get('tunnel_dead') is True)) if (ob.target or '') == 'IoParams -> copy_half' else None)
+    ck.absorb(ex, 'IoParams -> copy_half', allf, expect_paths=False)
+    ck.bounds['io-params'] = 'every buffer size (64 bit) the validation method accepts%s' % ('' if validators else ' -- there is none: every size')
